@@ -63,6 +63,13 @@ theorem parent_at {s : Store} (hw : WF s) (f : Nat) (hf : s.n ≤ f) (r : Nat) (
     rw [hc] at hk
     exact ⟨hw.down _ _ (List.mem_of_getElem? hk), hk⟩
 
+/-- one step down: the `k`-th entry of a child list sits at the address extended by `k` -/
+theorem child_at {s : Store} (hw : WF s) (f : Nat) (hf : s.n ≤ f) (r : Nat) (a : Addr) (p k x : Nat)
+    (ha : sub (treeOf s f r) a = some (treeOf s f p)) (hk : (s.children p)[k]? = some x) :
+    sub (treeOf s f r) (a ++ [k]) = some (treeOf s f x) := by
+  rw [sub_snoc, ha, Option.bind_some, treeOf_children hw p f hf, List.getElem?_map, hk]
+  rfl
+
 /-- every descendant has an address -/
 theorem addr_of_reach {s : Store} (hw : WF s) (f : Nat) (hf : s.n ≤ f) {r x : Nat} (h : Reach s r x) :
     ∃ a, sub (treeOf s f r) a = some (treeOf s f x) := by
